@@ -94,3 +94,76 @@ def dates(ii: int, si: int) -> bool:
         ok = utils.format_datetime(x) == oracle_text_py(Y, M, D, 0, 0, 0, 0, p, c)
     V.reached()
     return ok
+
+
+# ---- ambiguous local times: a fold-aware tzinfo (PEP 495); the instant depends on `fold`
+class FoldTZ(dt.tzinfo):
+    """a zone that falls back from +02:00 to +01:00 at 03:00 local on 2020-10-25: 02:00..02:59 occur twice (fold=0: +02:00, fold=1: +01:00)"""
+    def utcoffset(self, d):
+        if d is None:
+            return dt.timedelta(hours=1)
+        local = (d.year, d.month, d.day, d.hour)
+        if local < (2020, 10, 25, 2):
+            return dt.timedelta(hours=2)
+        if local >= (2020, 10, 25, 3):
+            return dt.timedelta(hours=1)
+        return dt.timedelta(hours=1 if d.fold else 2)
+
+    def dst(self, d):
+        return self.utcoffset(d) - dt.timedelta(hours=1)
+
+    def tzname(self, d):
+        return "FOLD"
+
+    def fromutc(self, d):
+        # d is in this zone's tzinfo but holds UTC fields
+        u = d.replace(tzinfo=None)
+        if u < dt.datetime(2020, 10, 25, 0):
+            return (u + dt.timedelta(hours=2)).replace(tzinfo=self)
+        if u < dt.datetime(2020, 10, 25, 1):
+            return (u + dt.timedelta(hours=2)).replace(tzinfo=self, fold=0)
+        if u < dt.datetime(2020, 10, 25, 2):
+            return (u + dt.timedelta(hours=1)).replace(tzinfo=self, fold=1)
+        return (u + dt.timedelta(hours=1)).replace(tzinfo=self)
+
+
+FOLD_CASES = [((2020, 10, 25, 2, 30, 0, 120000), 0, (2020, 10, 25, 0, 30, 0)), ((2020, 10, 25, 2, 30, 0, 120000), 1, (2020, 10, 25, 1, 30, 0)),
+              ((2020, 10, 25, 1, 59, 59, 999999), 1, (2020, 10, 24, 23, 59, 59)), ((2020, 10, 25, 3, 0, 0, 0), 1, (2020, 10, 25, 2, 0, 0)),
+              ((2020, 10, 25, 2, 0, 0, 1), 1, (2020, 10, 25, 1, 0, 0)), ((2020, 10, 25, 2, 59, 59, 999), 0, (2020, 10, 25, 0, 59, 59))]
+NFOLD = len(FOLD_CASES)
+
+
+def fold_inputs(fi: int, si: int, route: int) -> bool:
+    """
+    pre: 0 <= fi < NFOLD and 0 <= si < NSET and 0 <= route <= 3
+    post: _
+    """
+    fi, si, route = pick(fi, NFOLD), pick(si, NSET), pick(route, 4)
+    with Native():
+        ok = run_fold_case(fi, si, route)
+    V.reached()
+    return ok
+
+
+def run_fold_case(fi, si, route):
+    import stix2
+    from stix2.properties import TimestampProperty
+    p, c = SETTINGS[si]
+    f, fold, utc = FOLD_CASES[fi]
+    d = dt.datetime(*f, tzinfo=FoldTZ(), fold=fold)
+    us = f[6]
+    us_t = 0 if (p == Precision.SECOND and c == PrecisionConstraint.EXACT) else us - us % 1000 if (p == Precision.MILLISECOND and c == PrecisionConstraint.EXACT) else us
+    want = oracle_text_py(*utc, us_t, p, c)
+    if route == 0:
+        got = utils.format_datetime(STIXdatetime(d, precision=p, precision_constraint=c))
+    elif route == 1:
+        got = utils.format_datetime(utils.parse_into_datetime(d, p, c))
+    elif route == 2:
+        got = utils.format_datetime(TimestampProperty(precision=p.name.lower(), precision_constraint=c.name.lower()).clean(d)[0])
+    else:
+        if (p, c) != (Precision.MILLISECOND, PrecisionConstraint.MIN):
+            return True
+        import json
+        o = stix2.v21.Identity(name="n", identity_class="individual", created=d, modified=d)
+        got = json.loads(o.serialize())["created"]
+    return got == want
